@@ -92,6 +92,8 @@ type Interp struct {
 	pruneAll  bool
 	trivialN    int
 	harnessFn   map[*ssa.Function]bool
+	stash       map[string]Value
+	stashCount  map[string]int
 	recvTotal   int
 	sendTotal   int
 	deadline    time.Time
@@ -118,7 +120,7 @@ func NewInterp(prog *ssa.Program, cfg Config, ts *TermStore, sol *Solver) *Inter
 		forced: map[int]int{}, forcedSite: map[int]string{}, taken: map[int]int{}, decSite: map[int]string{}, symCount: map[string]int{}, symbols: map[string]*Term{}, reached: map[string]bool{},
 		mathCalls: map[string][]mathCall{}, funcsSeen: map[string]int{}, stubs: map[string]bool{}, known: map[string]bool{},
 		summaries: map[string]bool{}, initDone: map[*ssa.Package]bool{}, nextObj: 1,
-		hooks: map[string]func(*Interp, []Value) []Value{}, lockState: map[string]int{}, harnessFn: map[*ssa.Function]bool{}}
+		hooks: map[string]func(*Interp, []Value) []Value{}, lockState: map[string]int{}, stash: map[string]Value{}, stashCount: map[string]int{}, harnessFn: map[*ssa.Function]bool{}}
 }
 
 func (in *Interp) logAccess(o *Object, slot int, write bool) {
@@ -804,4 +806,30 @@ func computeSCC(fn *ssa.Function, fi *funcInfo) {
 			}
 		}
 	}
+}
+
+// chooseAmong: an n-way fork (decision point): this run takes the forced choice or choice 0 and
+// schedules the others.
+func (in *Interp) chooseAmong(n int, why string) int {
+	if n <= 1 {
+		return 0
+	}
+	k := in.nextDec
+	in.nextDec++
+	siteKey := "choose:" + why
+	if v, ok := in.forced[k]; ok {
+		if old := in.forcedSite[k]; old != siteKey {
+			panic(unsupported{"decision numbering diverged between runs (" + old + ")"})
+		}
+		in.taken[k] = v
+		in.decSite[k] = siteKey
+		return v
+	}
+	in.decSite[k] = siteKey
+	for v := 1; v < n; v++ {
+		in.pending = append(in.pending, in.specWith(k, v))
+	}
+	in.stats.forks += n - 1
+	in.taken[k] = 0
+	return 0
 }
